@@ -247,7 +247,9 @@ _inst_before_lemmas = instances
 
 def instances(tier):       # noqa: F811
     from .common import lemma_instance
-    return _inst_before_lemmas(tier) + [lemma_instance('C10', 'psd', 'lemma:weighted-outer-products-are-psd')]
+    return _inst_before_lemmas(tier) + [lemma_instance('C10', 'psd', 'lemma:weighted-outer-products-are-psd'),
+                                         lemma_instance('C10', 'beam', 'lemma:condition_covariance-preserves-trace-and-psd-for-every-D',
+                                                        ['condition_covariance_trace', 'condition_covariance_posSemidef', 'condition_covariance_isHermitian'])]
 
 
 # ----------------------------------------------------------------------------- bounded: the whole range of the quantifier
